@@ -26,7 +26,8 @@ RULE = ("cases: kind in {simplify (linear, 1-4 lines, 1-5 variables), simplify_d
         "(consistent linear equalities), linear_symbolic, symbolic_bounds, algebra (flip/_flip/comparator/merge called directly)}; "
         "coefficient classes int / dyadic / decimal (1e10, 1e-5, ...) / inexact (0.1, thirds); every comparator; x-indexed and named "
         "variables; boundary stream: opposing bound pairs, semantically opposite lines with different text, cancelling lines, zero "
-        "coefficients, duplicates; non-trivial = mystic returned a result for a system with at least one variable; "
+        "coefficients, duplicates; thorough adds all single-line systems a*x0 + b*x1 cmp 1 with a, b in {+-1, +-2, +-1/2} x 6 comparators; "
+        "non-trivial = mystic returned a result for a system with at least one variable; "
         "distinct = distinct case JSON")
 TRUSTED = ["harness/props/c12_util.py: the parser from constraint text to the SymExpr AST, the exact (Fraction) interpreter and the "
            "Gallina printer (division by a constant sub-expression is printed as multiplication by the exact reciprocal)",
